@@ -142,6 +142,9 @@ pub(crate) mod rice;
 #[doc(hidden)]
 pub mod sigen;
 pub mod source;
+#[cfg(flacenc_verif)]
+#[doc(hidden)]
+pub mod verif;
 
 #[cfg(test)]
 pub mod test_helper;
